@@ -160,6 +160,28 @@ func mutations(r *rng.R, cfg *scfg, thorough bool) []c02case {
 		f[0] = strings.Repeat("z", n)
 		add(join(f))
 	}
+	// reader-buffer boundaries: a first line stretched beyond 4096 / 8192 / 65536 bytes by characters the
+	// base64 decoder skips (CR) — valid if nothing else follows, invalid with junk behind the boundary
+	if r.Intn(3) == 0 || thorough {
+		for _, n := range []int{4095, 4096, 4097, 8192, 65536} {
+			head := strings.Join(fields, ":")
+			if len(head) >= n {
+				continue
+			}
+			padded := head + strings.Repeat("\r", n-len(head))
+			out = append(out, c02case{content: []byte(padded + "\n"), rightPw: pw, wellformed: true})
+			out = append(out, c02case{content: []byte(padded + "\r\r\n" + "totp: QUJD\n"), rightPw: pw, wellformed: true})
+			for _, junk := range []string{":x", "AAAA", "\x00", "=", "!"} {
+				add([]byte(padded + junk + "\n"))
+				add([]byte(padded + "\r\r" + junk))
+			}
+			// the same with the stretch inside the salt field
+			f := append([]string(nil), fields...)
+			f[3] = f[3][:4] + strings.Repeat("\r", max(n-len(head), 1)) + f[3][4:]
+			out = append(out, c02case{content: []byte(strings.Join(f, ":") + "\n"), rightPw: pw, wellformed: true})
+			add([]byte(strings.Join(f, ":") + "x\n"))
+		}
+	}
 	// arbitrary bytes
 	for k := 0; k < 6; k++ {
 		add(r.Bytes(r.Intn(120)))
@@ -228,7 +250,7 @@ func suiteC02(c *ctx) {
 						res = fmt.Sprintf("ok %s %s %d", tf(isAdmin), tf(upg), lc.Unix())
 					}
 					id := fmt.Sprintf("%s %s", xb(cs.content[:min(len(cs.content), 400)]), xb(pw[:min(len(pw), 100)]))
-					if len(cs.content) < 5000 {
+					if len(cs.content) < 70000 {
 						c.emit(fmt.Sprintf("st.auth %s %s %s %s %s", cfg.tokenOf(d), snapTok(snap, false), o.token(), xs(user), xb(pw)), res)
 					}
 					ind := independentAuth(cfg, active, cs.content, pw)
